@@ -31,6 +31,40 @@ impl Regex {
         })
     }
 
+    /// Verification hook: compile with a subset of the compile-time
+    /// optimisations switched off (`opts`: bits of `verif::opts`).
+    #[cfg(regexml_verif)]
+    #[doc(hidden)]
+    pub fn verif_new(re: &str, flags: &str, xsd: bool, opts: u32) -> Result<Self, Error> {
+        let language = if xsd { Language::XSD } else { Language::XPath };
+        let mut re_flags = ReFlags::new(flags, language)?;
+        re_flags.verif_opts = opts;
+        let pattern = re.chars().collect();
+        let re_compiler = ReCompiler::new(pattern, re_flags);
+        let re_program = re_compiler.compile()?;
+        let mut matcher = ReMatcher::new(&re_program, "");
+        let matches_empty_string = matcher.is_match();
+        Ok(Self {
+            re_program,
+            matches_empty_string,
+        })
+    }
+
+    /// Verification hook: debug rendering of the compiled program.
+    #[cfg(regexml_verif)]
+    #[doc(hidden)]
+    pub fn verif_program(&self) -> String {
+        format!(
+            "{:?} prefix={:?} initial={} minlen={} pre={} flags={}",
+            self.re_program.operation,
+            self.re_program.prefix,
+            self.re_program.initial_char_class.is_some(),
+            self.re_program.minimum_length,
+            self.re_program.preconditions.len(),
+            self.re_program.optimization_flags
+        )
+    }
+
     /// Create a regular expression from a string, using XPath 3.1 rules.
     pub fn xpath(re: &str, flags: &str) -> Result<Self, Error> {
         Self::new(re, flags, Language::XPath)
@@ -122,6 +156,8 @@ impl Iterator for TokenIter<'_> {
     type Item = String;
 
     fn next(&mut self) -> Option<Self::Item> {
+        #[cfg(regexml_verif)]
+        crate::verif::tick(25);
         if let Some(prev_end) = self.prev_end {
             if self.matcher.matches(prev_end) {
                 let start = self.matcher.get_paren_start(0).unwrap();
